@@ -153,26 +153,26 @@ example :
     selected algorithm gives: computed by a solver object of that algorithm, created for the
     current data, whose own answer is its history-free one. -/
 theorem adj_history_free (inp : AInput) (hok : inp.Ok) (a0 : AdjM.Alg) (ops : List AOp)
-    (hops : ∀ o ∈ ops, o.Valid) (op : AOp) (hop : op.Valid) :
+    (hops : ∀ o ∈ ops, o.Valid inp.env.n) (op : AOp) (hop : op.Valid inp.env.n) :
     let s := arun inp (ainit a0) ops
     (astep inp s op).2 = afresh inp s.alg op :=
   astep_eq_fresh hok (arun_inv hok (ainv_init inp a0) hops) op hop
 
 theorem adj_answer_is_spec (inp : AInput) (hok : inp.Ok) (a0 : AdjM.Alg) (ops : List AOp)
-    (hops : ∀ o ∈ ops, o.Valid) (op : AOp) (hop : op.Valid) :
+    (hops : ∀ o ∈ ops, o.Valid inp.env.n) (op : AOp) (hop : op.Valid inp.env.n) :
     let s := arun inp (ainit a0) ops
     (astep inp s op).2 = aspec inp s.alg op :=
   (astep_spec hok (arun_inv hok (ainv_init inp a0) hops) op hop).2.1
 
 theorem adj_idempotent (inp : AInput) (hok : inp.Ok) (a0 : AdjM.Alg) (ops : List AOp)
-    (hops : ∀ o ∈ ops, o.Valid) (q : AOp) (hq : q.Valid) (hquery : q.IsQuery) :
+    (hops : ∀ o ∈ ops, o.Valid inp.env.n) (q : AOp) (hq : q.Valid inp.env.n) (hquery : q.IsQuery) :
     let s := arun inp (ainit a0) ops
     (astep inp (astep inp s q).1 q).2 = (astep inp s q).2 :=
   astep_twice hok (arun_inv hok (ainv_init inp a0) hops) q hq hquery
 
 /-- `set(same data)` changes no answer -/
 theorem adj_reset_same_input (inp : AInput) (hok : inp.Ok) (a0 : AdjM.Alg) (ops : List AOp)
-    (hops : ∀ o ∈ ops, o.Valid) (q : AOp) (hq : q.Valid) :
+    (hops : ∀ o ∈ ops, o.Valid inp.env.n) (q : AOp) (hq : q.Valid inp.env.n) :
     let s := arun inp (ainit a0) ops
     (astep inp (astep inp s .set).1 q).2 = (astep inp s q).2 :=
   astep_after_set hok (arun_inv hok (ainv_init inp a0) hops) q hq
@@ -180,8 +180,8 @@ theorem adj_reset_same_input (inp : AInput) (hok : inp.Ok) (a0 : AdjM.Alg) (ops 
 /-- **Switching the algorithm and back** (with any queries in between) changes no answer, and every
     answer is produced by an object of the currently selected algorithm. -/
 theorem adj_set_algorithm_roundtrip (inp : AInput) (hok : inp.Ok) (a0 : AdjM.Alg) (ops : List AOp)
-    (hops : ∀ o ∈ ops, o.Valid) (a : AdjM.Alg) (mid : List AOp) (hmid : ∀ o ∈ mid, o.Valid ∧ o.IsQuery)
-    (q : AOp) (hq : q.Valid) (hquery : q.IsQuery) :
+    (hops : ∀ o ∈ ops, o.Valid inp.env.n) (a : AdjM.Alg) (mid : List AOp) (hmid : ∀ o ∈ mid, o.Valid inp.env.n ∧ o.IsQuery)
+    (q : AOp) (hq : q.Valid inp.env.n) (hquery : q.IsQuery) :
     let s := arun inp (ainit a0) ops
     (astep inp (astep inp (arun inp (astep inp s (.setAlg a)).1 mid) (.setAlg s.alg)).1 q).2 = (astep inp s q).2
     ∧ (astep inp s q).2.by? = some s.alg := by
@@ -200,16 +200,16 @@ example :
                  resolves := fun l => decide (1 ≤ l.length), qbbIn := fun _ _ => true },
         chol := fi, gso := fi, svd := fi, minx := some [1, 2], rows := fun _ => [1, 2] }
     let ops := [AOp.x, .setAlg .svd, .qxx 1 3, .defect, .set, .setAlg .chol, .rtr]
-    inp.Ok ∧ (∀ o ∈ ops, o.Valid)
+    inp.Ok ∧ (∀ o ∈ ops, o.Valid inp.env.n)
     ∧ (astep inp (arun inp (ainit .env) ops) (.qbb 1 2)).2
         = .qbb .chol [.full (.qxx 1 1 (some [1, 2]) (.reg [1, 2])), .full (.qxx 2 1 (some [1, 2]) (.reg [1, 2])),
                       .full (.qxx 1 2 (some [1, 2]) (.reg [1, 2])), .full (.qxx 2 2 (some [1, 2]) (.reg [1, 2]))] := by
-  refine ⟨⟨fun i h => h, ?_, by decide, ⟨by decide, by decide, by decide, (by intro hk hu; first | exact Or.inl rfl | exact absurd hk (by decide) | exact absurd hu (by decide)), by decide⟩,
+  refine ⟨⟨fun i h _ => h, ?_, by decide, ⟨by decide, by decide, by decide, (by intro hk hu; first | exact Or.inl rfl | exact absurd hk (by decide) | exact absurd hu (by decide)), by decide⟩,
            ⟨by decide, by decide, by decide, (by intro hk hu; first | exact Or.inl rfl | exact absurd hk (by decide) | exact absurd hu (by decide)), by decide⟩, ⟨by decide, by decide, by decide⟩⟩,
           by decide, by decide⟩
   intro i c hc
   simp at hc
-  omega
+  rcases hc with rfl | rfl <;> exact ⟨by decide, by decide⟩
 
 
 /-! ### across resets to OTHER inputs (round 3)
@@ -275,36 +275,45 @@ example :
         = .stale "defect"
     ∧ (hsstep (hsrun ⟨a, Full.sinit false none⟩ [.q .defect, .resetNew b]) (.q .defect)).2 = .defect := by decide
 
-/-- **Numeric meaning (`answer_denotes`, chol and gso solver entry).**  After any history incl. resets to
-    other inputs, the value denoted by the symbolic answer (`denoteF`: the numeric solver model
-    `Gama.Ls.solverOf alg` on the CURRENT problem `p`, regularised as the provenance term says) is what the
-    numeric model gives a fresh object: over the effective list on a singular system, with the configuration
-    as it stands on a regular one. -/
-theorem full_answer_denotes {K : Type} [Scalar K] (alg : Ls.Alg) (p : Ls.Problem K) (c : Ls.Reg)
+/-- **Numeric meaning (`answer_denotes`, chol and gso solver entry; round 4: no free `alg`, `c`).**  `p` is
+    a numeric problem whose facts the current symbolic input carries (`FactsF`: same size, `nullity` = the defect
+    the numeric model `Ls.solverOf (algOf k)` reports for `p`, `resolves` = its regularisation verdict).  After any
+    history incl. resets to other inputs, the value denoted by the symbolic answer (`denoteF` with the algorithm OF
+    THE MACHINE'S KIND and the configuration THE OBJECT HOLDS) is `answerF`: the field of the numeric solver model
+    on `p` under the caller's configuration (over the effective list when `p` is singular, as configured when
+    regular) — a function of `(p, configuration, query)` alone. -/
+theorem full_answer_denotes {K : Type} [Scalar K] (p : Ls.Problem K)
     (k : Kind) (inp0 : Full.Input) (ua : Bool) (l0 : Option (List Nat))
     (h0 : CfgOk k inp0 ua l0) (ops : List Full.HOp) (hops : ValidF k ⟨inp0, Full.init ua l0⟩ ops)
     (op : Full.Op) (hop : op.Ok (hfrun k ⟨inp0, Full.init ua l0⟩ ops).inp) :
     let h := hfrun k ⟨inp0, Full.init ua l0⟩ ops
-    denoteF alg p c (hfstep k h (.q op)).2 = directF alg p c (h.inp.nullity != 0) (Full.eff h.inp h.s) false op := by
-  intro h
+    FactsF (algOf k) p h.inp →
+    denoteF (algOf k) p (cfgReg h.s.useAll h.s.list) (hfstep k h (.q op)).2
+      = answerF (algOf k) p h.s.useAll h.s.list op := by
+  intro h hF
   have hs := (Full.step_spec (hfrun_inv (h := ⟨inp0, Full.init ua l0⟩) h0 hops) op hop).2.1
-  show denoteF alg p c (Full.step k h.inp h.s op).2 = _
-  rw [hs]
-  exact denoteF_spec k alg p c h.inp _ op
+  show denoteF (algOf k) p _ (Full.step k h.inp h.s op).2 = _
+  rw [hs, denoteF_spec k (algOf k) p _ h.inp _ op]
+  exact directF_eq_answerF k p h.inp hF h.s op
 
-/-- … and for `AdjSVD` (`seff`: the configured subset, `none` = all: `V` stays plain) -/
-theorem svd_answer_denotes {K : Type} [Scalar K] (p : Ls.Problem K) (c : Ls.Reg)
+/-- … and for `AdjSVD` (a configured subset, else all: `V` stays plain) -/
+theorem svd_answer_denotes {K : Type} [Scalar K] (p : Ls.Problem K)
     (inp0 : Full.Input) (sub : Bool) (l0 : Option (List Nat))
     (h0 : SCfgOk inp0 sub l0) (ops : List Full.HOp) (hops : ValidS ⟨inp0, Full.sinit sub l0⟩ ops)
     (op : Full.Op) (hop : op.Ok (hsrun ⟨inp0, Full.sinit sub l0⟩ ops).inp) :
     let h := hsrun ⟨inp0, Full.sinit sub l0⟩ ops
-    denoteF .svd p c (hsstep h (.q op)).2
-      = directF .svd p c (h.inp.nullity != 0 && (Full.seff h.s).isSome) ((Full.seff h.s).getD []) true op := by
-  intro h
+    FactsF .svd p h.inp →
+    denoteF .svd p (cfgReg (!h.s.sub) h.s.list) (hsstep h (.q op)).2 = answerS p h.s.sub h.s.list op := by
+  intro h hF
   have hs := (Full.sstep_spec (hsrun_inv (h := ⟨inp0, Full.sinit sub l0⟩) h0 hops) op hop).2.1
-  show denoteF .svd p c (Full.sstep h.inp h.s op).2 = _
-  rw [hs]
-  exact denoteF_sspec .svd p c h.inp _ op
+  show denoteF .svd p _ (Full.sstep h.inp h.s op).2 = _
+  rw [hs, denoteF_sspec .svd p _ h.inp _ op]
+  exact directF_eq_answerS p h.inp hF h.s op
+
+/-- the symbolic input OF a numeric problem carries its facts (non-vacuity of `FactsF` for every problem and
+    algorithm; `Full.inputOf` is what a driver that takes its facts from the numeric model runs) -/
+theorem full_facts_of_problem {K : Type} [Scalar K] (alg : Ls.Alg) (p : Ls.Problem K) :
+    FactsF alg p (Full.inputOf alg p) := factsF_inputOf alg p
 
 /-- **`Adj`: history freedom across inputs, with the work matrices.**  After any history of queries,
     `set_algorithm`, `set(same or other data)` every answer is the one a brand-new `Adj` with the current
@@ -313,15 +322,16 @@ theorem svd_answer_denotes {K : Type} [Scalar K] (p : Ls.Problem K) (c : Ls.Reg)
     never onto homogenisation fill-in or non-zeros of an earlier run.  The proof uses the code's
     `A_dot.set_zero()` (`fillCode`). -/
 theorem adj_history_free_across_inputs (inp0 : AInput) (hok : inp0.Ok) (a0 : AdjM.Alg) (ops : List HAOp)
-    (hops : ∀ o ∈ ops, o.Valid) (op : AOp) (hop : op.Valid) :
+    (hops : HAValid inp0 ops) (op : AOp) :
     let h := harun (hainit inp0 a0) ops
+    op.Valid h.inp.env.n →
     (hastep h (.q op)).2 = hafresh h.inp h.s.alg op
     ∧ (hastep h (.q op)).2 = (aspec h.inp h.s.alg op, if isQuery op then expectedIn h.inp h.s.alg else none) :=
-  ⟨hastep_eq_fresh (harun_inv (hainv_init hok a0) hops) op hop,
+  fun hop => ⟨hastep_eq_fresh (harun_inv (hainv_init hok a0) hops) op hop,
    hastep_spec (harun_inv (hainv_init hok a0) hops) op hop⟩
 
 theorem adj_invariant_across_inputs (inp0 : AInput) (hok : inp0.Ok) (a0 : AdjM.Alg) (ops : List HAOp)
-    (hops : ∀ o ∈ ops, o.Valid) : HAInv (harun (hainit inp0 a0) ops) :=
+    (hops : HAValid inp0 ops) : HAInv (harun (hainit inp0 a0) ops) :=
   harun_inv (hainv_init hok a0) hops
 
 
@@ -332,10 +342,11 @@ theorem adj_invariant_across_inputs (inp0 : AInput) (hok : inp0.Ok) (a0 : AdjM.A
     branch — is the answer of the numeric model of a fresh `Adj` (`Gama.Ls.adjSolve`) on the CURRENT
     problem.  Uses `copyRows_zeros`: on a zeroed matrix the copy loop yields the dense design matrix. -/
 theorem adj_answer_denotes {K : Type} [Scalar K] (W : Nat → Ls.Problem K) (inp0 : AInput) (hok : inp0.Ok)
-    (a0 : AdjM.Alg) (ops : List HAOp) (hops : ∀ o ∈ ops, o.Valid) (op : AOp) (hop : op.Valid) (hq : op.IsQuery) :
+    (a0 : AdjM.Alg) (ops : List HAOp) (hops : HAValid inp0 ops) (op : AOp) (hq : op.IsQuery) :
     let h := harun (hainit inp0 a0) ops
+    op.Valid h.inp.env.n →
     adjNum W h.s.alg h.inp.id (hastep h (.q op)).2.2 = Ls.adjSolve (lsAlg h.s.alg) (W h.inp.id) := by
-  intro h
+  intro h hop
   rw [hastep_spec (harun_inv (hainv_init hok a0) hops) op hop]
   simp only [haspec, (isQuery_iff op).mpr hq, if_true]
   exact adjNum_expected W h.inp h.s.alg
